@@ -20,7 +20,8 @@ LAWS = ['ValuesLegal', 'SizeLaw', 'RoundTrip', 'DeclaredOrder', 'EditLaw', 'Mini
 PROPS = ['OneElementPerStep', 'FposMonotone']
 WITNESSES = ['W_OooReject', 'W_RepNested', 'W_Depth2', 'W_IcSame', 'W_NcInMap', 'W_Big']
 ACTIONS_A = ['FieldFound', 'SkippedFound', 'RepeatedStays', 'MapKey', 'MapValue', 'IgnoredNonCritical',
-             'IgnoredCriticalByFlag', 'IgnoredInMap', 'RejectCritical', 'BadNested', 'Done']
+             'IgnoredInMap', 'RejectCritical', 'BadNested', 'Done']
+SUBST = 'CONSTANTS SchemaOfCase <- C08Schema IcOfCase <- C08Ic InputOfCase <- C08Input'
 
 SHIPPED = ['ndn.app_support.nfd_mgmt', 'ndn.encoding.ndnlp_v2', 'ndn.app_support.light_versec.binary',
            'ndn.app_support.svs.tlv', 'ndn.app_support.security_v2', 'ndn.encoding.ndn_format_0_3']
@@ -90,8 +91,10 @@ def classify_exc(ex):
     return 'reject' if kit.exc_class(ex) == 'documented' else 'error:' + type(ex).__name__
 
 
-def observe(schema, cls, mv, edits):
-    """Run the implementation on one (class, value): returns the observation record."""
+def observe(schema, cls, mv, edits, expect_tree=None):
+    """Run the implementation on one (class, value): returns the observation record. Edits are positions in
+    the expected tree: they are applied only when the wire projects onto that tree (a wrong base encoding is
+    reported on its own)."""
     obs = {'alen': 0, 'wlen': 0, 'tree': [], 'proj': '', 'back': [], 'eq': False, 'edits': [], 'enc': ''}
     inst = kit.to_python(schema, cls, mv)
     try:
@@ -118,6 +121,8 @@ def observe(schema, cls, mv, edits):
     except Exception as ex:  # noqa
         obs['back'] = []
         obs['dec'] = type(ex).__name__
+    if expect_tree is not None and obs['tree'] != expect_tree:
+        return obs
     for e in edits:
         w2 = stl.write_tlv(kit.apply_edit(conc, e))
         o = dict(e)
@@ -137,7 +142,7 @@ def observe(schema, cls, mv, edits):
 def compare_vec(ctx, cname, schema, cls, vec, decl=None):
     mv = vec['v']
     edits = sorted(vec['edits'], key=lambda e: (e['path'], e['kind'], e['op'], e['pos'], e['src']))
-    obs = observe(schema, cls, mv, edits)
+    obs = observe(schema, cls, mv, edits, vec['tree'])
     feat = features(schema, mv)
     rep = {'kind': 'vec', 'cname': cname, 'decl': decl, 'schema': schema, 'v': mv}
     bad = []
@@ -425,12 +430,13 @@ BASE_ORDER = ['alen', 'enc', 'wlen', 'proj', 'tree', 'dec', 'back', 'eq', 'colle
 
 def report_c(ctx, recs, verdicts):
     by = {r['id']: r for r in recs}
+    broken = []
     for rid, tags in verdicts.items():
         rec = by[rid]
         feat = features(rec['schema'], rec['v'])
-        for tag in tags:
-            if tag in ('ILLEGAL-INPUT', 'SPEC-ROUNDTRIP'):
-                raise tlc.MachineryError('judge: %s on record %s (%s)' % (tag, rid, rec['cname']))
+        if any(tag in ('ILLEGAL-INPUT', 'SPEC-ROUNDTRIP') for tag in tags):
+            broken.append('judge: %s on record %s (%s)' % (tags, rid, rec['cname']))
+            continue
         base = [t for t in tags if not t.startswith('edit/')]
         if rec['enc'] and 'alen' not in base:
             base.append('enc')
@@ -456,6 +462,10 @@ def report_c(ctx, recs, verdicts):
                           '%s: edit %s path %s pos %d: reference %s, implementation %s' % (
                               rec['cname'], kind, e['path'], e['pos'], want, got),
                           {'kind': 'record', 'rec': dict(rec, edits=[e])})
+    if broken and not ctx.violations:
+        raise tlc.MachineryError(broken[0])
+    for b in broken[:3]:
+        ctx.note('not judged (generated input outside the reference domain): ' + b)
 
 
 # ------------------------------------------------------------------ run
@@ -476,6 +486,20 @@ def selfcheck_strict(numvec):
 
 
 def run(ctx):
+    try:
+        _run(ctx)
+        kit.cleanup()
+    except tlc.MachineryError:
+        raise
+    except Exception as ex:  # noqa
+        # an implementation broken badly enough to derail the driver after violations were already recorded:
+        # report those violations rather than a machinery failure
+        if not ctx.violations:
+            raise
+        ctx.note('driver stopped by %s after %d violation signature(s)' % (type(ex).__name__, len(ctx.violations)))
+
+
+def _run(ctx):
     ctx.rule = ('A: TLC states of the scan machine over family x boundary assignments x edits. B: every TLC-enumerated '
                 '(class, assignment) executed on the real class (encode, strict projection, parse, each edit). '
                 'C: random/shipped (class, value, edits) records judged by TLC. non-trivial = distinct (class, value) '
@@ -484,34 +508,51 @@ def run(ctx):
     ctx.assumptions = ['strict_tlv reader/writer (cross-checked against TlvNum vectors at every run)',
                        'Python utf-8 codec and the projection of field values in harness/tlvkit.py',
                        'TLC and the CommunityModules Json module']
-    K, cap, ek = ctx.pick((2, 400, 1), (3, 6000, 2))
+    K, cap, ek = ctx.pick((1, 400, 1), (3, 6000, 2))
     consts = {'K': K, 'Cap': cap, 'EditK': ek}
     if 'A' in ctx.stages:
-        cfg = kit.write_cfg('TlvModelC08_%s.cfg' % ctx.tier, constants=consts, invariants=LAWS, properties=PROPS)
+        cfg = kit.write_cfg('TlvModelC08_%s.cfg' % ctx.tier, constants=consts, invariants=LAWS, properties=PROPS, raw=SUBST)
         r = tlc.run('TlvModelC08', cfg, workers=ctx.pick(4, 16), coverage=False)
         ctx.add_tlc('TlvModelC08 laws K=%d Cap=%d EditK=%d' % (K, cap, ek), r)
         if r.violated:
             ctx.violation('C08/spec/%s' % r.violated, 'TLC: law %s violated on the reference' % r.violated, {'trace': r.errtrace})
         wc = {'K': 1, 'Cap': 60, 'EditK': 0}
-        cfgc = kit.write_cfg('TlvModelC08_cov.cfg', constants=wc, invariants=LAWS)
+        cfgc = kit.write_cfg('TlvModelC08_cov.cfg', constants=wc, invariants=LAWS, raw=SUBST)
         rc = tlc.run('TlvModelC08', cfgc, workers=2, coverage=True)
         for a in ACTIONS_A:
             if rc.coverage.get(a, (0, 0))[0] == 0:
                 raise tlc.MachineryError('vacuous: action %s never taken in TlvModelC08' % a)
-        for w in WITNESSES:
-            cw = kit.write_cfg('TlvModelC08_w.cfg', constants={'K': 1, 'Cap': 200, 'EditK': 0}, invariants=[w])
-            rw = tlc.run('TlvModelC08', cw, workers=2)
-            if rw.violated != w:
-                raise tlc.MachineryError('witness %s not reachable' % w)
+        kit.check_witnesses('TlvModelC08', WITNESSES, {'K': 1, 'Cap': 200, 'EditK': 0}, raw=SUBST)
     if 'B' in ctx.stages:
-        out = os.path.join(tlc.BUILD, 'c08-vec-%s.json' % ctx.tier)
         cfg = kit.write_cfg('TlvModelVec_%s.cfg' % ctx.tier, constants=consts, init='Init', next_='Next')
-        r = kit.tlc_eval('TlvModelVec', cfg, {'VEC_OUT': out}, heap='8g')
-        ctx.tlc_runs.append({'cfg': 'TlvModelVec (vector emission)', 'distinct': 0, 'generated': 0, 'depth': 0, 'wall_s': round(r.wall, 1)})
-        with open(out + '.num') as f:
+        NFAM = 14
+
+        def emit(f):
+            out = kit.scratch('c08-vec-%s-%d.json' % (ctx.tier, f))
+            r = kit.tlc_eval('TlvModelVec', cfg, {'VEC_OUT': out, 'VEC_F': f}, heap='4g')
+            if '<<"FAMILY", %d>>' % NFAM not in r.out:
+                raise tlc.MachineryError('TlvModelVec: the family does not have %d classes' % NFAM)
+            with open(out) as fh:
+                return r.wall, json.load(fh)[0], out
+        from concurrent.futures import ThreadPoolExecutor
+        import time as _t
+        t0 = _t.time()
+        if ctx.quick:                       # one JVM is cheaper than 14 for the small quick domains
+            out = kit.scratch('c08-vec-quick.json')
+            r = kit.tlc_eval('TlvModelVec', cfg, {'VEC_OUT': out, 'VEC_F': 0}, heap='4g')
+            with open(out) as fh:
+                fam = json.load(fh)
+            res = [(r.wall, None, out)]
+        else:
+            with ThreadPoolExecutor(8) as ex:
+                res = list(ex.map(emit, range(1, NFAM + 1)))
+            fam = [x[1] for x in res]
+        if len(fam) != NFAM:
+            raise tlc.MachineryError('TlvModelVec emitted %d classes' % len(fam))
+        ctx.tlc_runs.append({'cfg': 'TlvModelVec (vector emission, %d classes in parallel)' % NFAM, 'distinct': 0, 'generated': 0,
+                             'depth': 0, 'wall_s': round(_t.time() - t0, 1)})
+        with open(res[0][2] + '.num') as f:
             selfcheck_strict(json.load(f))
-        with open(out) as f:
-            fam = json.load(f)
         nv = ne = 0
         for fm in fam:
             decl, schema = fm['decl'], fm['schema']
@@ -520,6 +561,7 @@ def run(ctx):
             if [(d['name'], d['t'], d['kind']) for d in got] != [(d['name'], d['t'], d['kind']) for d in schema]:
                 ctx.violation('C08/collect/%s' % decl['cname'], 'metaclass field order %s differs from Collect %s' % (
                     [d['name'] for d in got], [d['name'] for d in schema]), {'kind': 'collect', 'decl': decl})
+                continue      # the class does not have the declared fields: its vectors cannot be aligned
             for vec in fm['vecs']:
                 obs, bad = compare_vec(ctx, decl['cname'], schema, cls, vec, decl)
                 nv += 1
@@ -536,15 +578,23 @@ def run(ctx):
     if 'C' in ctx.stages:
         gen = Gen(ctx.rng)
         recs = []
-        nrand, per, nship = ctx.pick((50, 12, 12), (500, 40, 150))
+        nrand, per, nship = ctx.pick((40, 10, 8), (500, 40, 150))
         for _ in range(nrand):
             decl = gen.decl()
             cls = kit.build_decl(decl)
             schema = kit.introspect(cls)
+            if len({d['name'] for d in schema}) != len(schema):
+                ctx.violation('C08/collect/duplicate-field', 'metaclass collected two fields of the same name: %s' % [d['name'] for d in schema],
+                              {'kind': 'collect', 'decl': decl})
+                continue
             for _ in range(per):
                 recs.append(record_for(gen, len(recs) + 1, 'random', cls, schema, decl, 3))
         ships = shipped_classes()
         for cname, cls, schema in ships:
+            if len({d['name'] for d in schema}) != len(schema):
+                ctx.violation('C08/collect/duplicate-field', '%s: metaclass collected two fields of the same name: %s' % (
+                    cname, [d['name'] for d in schema]), {'kind': 'collect', 'cname': cname})
+                continue
             ev = enum_values(cls)
             for _ in range(nship):
                 recs.append(record_for(gen, len(recs) + 1, cname, cls, schema, None, 3, ev))
